@@ -110,6 +110,8 @@ class MetaEngine:
         self.provisional = {}
         self.recursed = set()
         self.out_names = out_names
+        self.probe_names = ()        # callee names whose evaluated arguments are recorded per calling function
+        self.probes = {}             # fpath -> {id(node): (node, [arg syms])}
 
     def param_symbols(self, it):
         syms = {}
@@ -380,6 +382,8 @@ class MetaEngine:
                 f = callee(n)
                 name = f["name"] if f else n.get("name", "")
                 args = ([n["recv"]] if k == "MCall" else []) + n["args"]
+                if name in eng.probe_names:
+                    eng.probes.setdefault(fpath, {})[id(n)] = (n, [ev(a, st) for a in args])
                 if k == "MCall":
                     oid = obj_of(n["recv"], st)
                     if oid and name in SETTERS and n["args"]:
@@ -585,3 +589,52 @@ def is_call(sym, name, *must_contain):
     if not (isinstance(sym, tuple) and sym and sym[0] == "call" and sym[1] == name):
         return False
     return all(any(a == m for a in sym[2:]) for m in must_contain)
+
+
+def _canon_ctx(c):
+    """context-data expression -> canonical ('ctxof', level sym) / the expression itself"""
+    if isinstance(c, tuple) and c and c[0] == "call" and c[1] == "get_context_data" and len(c) >= 3:
+        return ("ctxof", c[-1])
+    return c
+
+
+def _canon_level(l):
+    if isinstance(l, tuple) and l and l[0] == "call" and l[1] == "parms_id" and len(l) >= 3:
+        return _canon_ctx(l[2])
+    return ("ctxof", l)
+
+
+def check_scale_guard_level(pf, eng, rep, scheme, fn_filter, rule="R-GUARD(scale-level)"):
+    """The context data handed to is_scale_within_bounds denotes the level the RESULT will carry: a scale that fits the
+    operand's level but not the result's must be refused."""
+    rep.rule(rule, "every is_scale_within_bounds test uses the context data of the level recorded on the operation's result")
+    eng.probe_names = ("is_scale_within_bounds",)
+    n = 0
+    for p in sorted(pf.hir):
+        if not fn_filter(p):
+            continue
+        if not any((callee(x) or {}).get("name") == "is_scale_within_bounds" for x in walk(pf.hir[p])):
+            continue
+        eng.memo.pop(p, None)
+        s = eng.summary(p)
+        if s is None or s == "diverge" or not s.normal:
+            continue
+        res, names, outsyms = result_of(pf, eng, p)
+        if res is None:
+            continue
+        lvl = res["level"]
+        for k, (node, args) in enumerate(sorted(eng.probes.get(p, {}).values(), key=lambda t: (t[0].get("l", 0), t[0].get("c", 0)))):
+            n += 1
+            rep.fn(p)
+            key = "%s/%s#%d" % (scheme, p, k)
+            g = args[-1]
+            if mentions(lvl, lambda z: z == UNK) or mentions(g, lambda z: z == UNK):
+                rep.unresolved(rule, key, "level %s / guard context %s not resolved" % (show(lvl), show(g)), pf.loc(p, node))
+            elif _canon_ctx(g) == _canon_level(lvl):
+                rep.ok(rule, key, "the scale is tested against the level of the result (%s)" % show(lvl), pf.loc(p, node),
+                       sample={"function": p, "result_level": show(lvl), "guard_context": show(g)})
+            else:
+                rep.violation(rule, key, "under %s, %s tests the scale against %s but its result is recorded at level %s: a scale "
+                              "that fits the tested level and not the result's is computed on instead of being refused" %
+                              (scheme, p, show(g), show(lvl)), pf.loc(p, node))
+    return n
